@@ -28,6 +28,8 @@ sys.path.insert(0, VERIF)
 # seeded changes that break a property in a way no rule of this family reaches (stated in DESIGN.md section 10)
 EXPECTED_MISS = {
     "C01-3": "BooleanString accepts padded strings that pydantic's bool parser rejects (parser languages)",
+    "C12-r7-1": "where the flat layout inserts a model is arithmetic on run-time positions (PositionsDict): that every model is "
+                "placed once on every path is decided (LAY-1), that the root comes first is not",
 }
 
 
